@@ -7,12 +7,12 @@
    Hence an entry left behind on some thread by a destroyed engine can never be found by a later engine. */
 #include "layout.h"
 #include "bv_model.h"
-static uint64_t seen_key; static int idx_calls, erase_calls; static char slot[64];
-char* UMAP_INDEX(char* map, char* key) { idx_calls++; seen_key = *(uint64_t*)key; return slot; }
+static uint64_t seen_key; static char* seen_map; static int idx_calls, erase_calls; static char slot[64];
+char* UMAP_INDEX(char* map, char* key) { idx_calls++; seen_key = *(uint64_t*)key; seen_map = map; return slot; }
 #ifdef UMAP_INDEX2
-char* UMAP_INDEX2(char* map, char* key) { idx_calls++; seen_key = *(uint64_t*)key; return slot; }
+char* UMAP_INDEX2(char* map, char* key) { idx_calls++; seen_key = *(uint64_t*)key; seen_map = map; return slot; }
 #endif
-uint64_t UMAP_ERASE(char* map, char* key) { erase_calls++; seen_key = *(uint64_t*)key; return 1; }
+uint64_t UMAP_ERASE(char* map, char* key) { erase_calls++; seen_key = *(uint64_t*)key; seen_map = map; return 1; }
 uint32_t F___cxa_thread_atexit(char* f, char* o, char* d) { return 0; }
 #ifdef TS_CTOR
 void TS_CTOR(char* self);
@@ -24,6 +24,32 @@ void TS_DTOR(char* self); char* TS_DEREF(char* self); char* TS_ARROW(char* self)
 #define COUNTER dummy_counter
 static uint64_t dummy_counter;
 #endif
+#ifdef TWO_THREADS
+/* K3: threads.  thread_local objects of the translated code exist once per modelled thread (the translator indexes them by __verif_tid).
+   Engine A is constructed on thread 0, engine B on thread 1 (each thread with an arbitrary construction history of its own); then one
+   common thread uses both: they must address that thread's map with DIFFERENT keys; and one engine used from two threads must address
+   two DIFFERENT maps (each thread sees only its own locals). */
+int main(void) {
+  static struct { uint64_t key; } A, B; A.key = nondet_u64(); B.key = nondet_u64();
+  uint64_t c0 = nondet_u64(), c1 = nondet_u64(); __CPROVER_assume(c0 < (1ull << 62) && c1 < (1ull << 62));
+  COUNTER_T(0) = c0;
+#if COUNTER_IS_TL
+  COUNTER_T(1) = c1;                                         /* a per-thread counter has a history per thread */
+#endif
+  __verif_tid = 0; TS_CTOR((char*)&A);
+  __verif_tid = 1; TS_CTOR((char*)&B);
+  __verif_tid = 0; (void)TS_DEREF((char*)&A); uint64_t kA = seen_key; char* mA0 = seen_map;
+  (void)TS_DEREF((char*)&B); uint64_t kB = seen_key; char* mB0 = seen_map;
+  __CPROVER_assert(kA != kB, "C14: two engines never share per-thread state, whichever threads constructed them (keys are unique in the process, not per thread)");
+  __CPROVER_assert(mA0 == mB0, "C14: on one thread all engines use that thread's map");
+  __verif_tid = 1; (void)TS_DEREF((char*)&A); char* mA1 = seen_map;
+  __CPROVER_assert(seen_key == kA, "C14: an engine uses its own key on every thread");
+  __CPROVER_assert(mA1 != mA0, "C13: every thread keeps its own per-thread state of an engine (its own map)");
+  __CPROVER_assert(!__exc_pending, "C14: storage management does not throw");
+  __CPROVER_assert(0, "witness: two threads explored");
+  return 0;
+}
+#else
 int main(void) {
   static struct { uint64_t key; } obj;                      /* Thread_Storage's only data member */
   _Static_assert(sizeof obj == SZ_Thread_Storage, "Thread_Storage layout changed");
@@ -43,3 +69,4 @@ int main(void) {
   __CPROVER_assert(0, "witness: history explored");
   return 0;
 }
+#endif
